@@ -3,6 +3,7 @@ package main
 import (
 	"fmt"
 	"go/types"
+	"strings"
 )
 
 // leafMaker produces the symbolic leaf for a path inside a generated value.
@@ -161,6 +162,14 @@ func (it *Interp) opaqueOfType(t types.Type, tag string) Val {
 		}
 		return Ptr(newVal(it.opaqueOfType(u.Elem(), tag)))
 	case *types.Struct:
+		if it.autoAll && strings.Count(tag, ".") < 6 {
+			// in abstract-all mode an arbitrary struct is a struct of arbitrary fields (so that its fields can be read)
+			sv := &StructV{T: t, F: make([]Val, u.NumFields())}
+			for i := range sv.F {
+				sv.F[i] = it.opaqueOfType(u.Field(i).Type(), tag+"."+u.Field(i).Name())
+			}
+			return sv
+		}
 		return &Native{Kind: "opaque", Tag: t.String() + "@" + tag}
 	case *types.Interface:
 		if t.String() == "error" {
